@@ -96,6 +96,69 @@ theorem gibbs_is_conditional (P : CallParams) (fs : List ℚ) (hfs : P.freqs = s
   unfold gibbsProbs
   rw [hw, normalise_scale _ _ hD]
 
+/-- ordered posterior weight for `F = 0` (independent alleles): likelihood × product of the allele
+    frequencies -/
+def piO0 (P : CallParams) (a : List ℕ) : ℚ :=
+  likAlleles P.reads P.nb P.haps a * (a.map (freqOf P.n P.freqs)).prod
+
+/-- **Gibbs = exact full conditional, `F = 0`** (any frequencies, flat included) -/
+theorem gibbs_is_conditional_F0 (P : CallParams) (hF : P.F = 0) (pre post : List ℕ) (c : ℕ)
+    (hpos : ∀ z ∈ pre ++ post, freqOf P.n P.freqs z ≠ 0) :
+    gibbsProbs P (pre ++ c :: post) pre.length
+      = normalise ((List.range P.n).map (fun x => piO0 P (pre ++ x :: post))) := by
+  have hD : ((pre ++ post).map (freqOf P.n P.freqs)).prod ≠ 0 := by
+    apply List.prod_ne_zero
+    intro h0
+    obtain ⟨z, hz, hz0⟩ := List.mem_map.mp h0
+    exact hpos z hz hz0
+  have hw : gibbsWeights P (pre ++ c :: post) pre.length
+      = ((List.range P.n).map (fun x => piO0 P (pre ++ x :: post))).map
+          (· / ((pre ++ post).map (freqOf P.n P.freqs)).prod) := by
+    unfold gibbsWeights
+    rw [List.map_map]
+    apply List.map_congr_left
+    intro x _
+    have hset : (pre ++ c :: post).set pre.length x = pre ++ x :: post := by simp
+    have hget : (pre ++ x :: post).getD pre.length 0 = x := by simp [List.getD_eq_getElem?_getD]
+    simp only [Function.comp, hset, piO0, C05.allelePrior_F0, hF, hget]
+    simp only [List.map_append, List.map_cons, List.prod_append, List.prod_cons] at hD ⊢
+    have h1 : (List.map (freqOf P.n P.freqs) pre).prod ≠ 0 := left_ne_zero_of_mul hD
+    have h2 : (List.map (freqOf P.n P.freqs) post).prod ≠ 0 := right_ne_zero_of_mul hD
+    field_simp
+  unfold gibbsProbs
+  rw [hw, normalise_scale _ _ hD]
+
+/-- the flat prior (`frequencies=None`) gives the same single-allele conditional, hence the same Gibbs
+    vector, as the explicit flat frequency vector — so `gibbs_is_conditional` covers it -/
+theorem allelePrior_none_eq_flat (n : ℕ) (F : ℚ) (g : List ℕ) (k : ℕ)
+    (hk : g.getD k 0 < n) :
+    allelePrior n F none g k = allelePrior n F (some (List.replicate n (1 / (n : ℚ)))) g k := by
+  unfold allelePrior
+  have hf : freqOf n (some (List.replicate n (1 / (n : ℚ)))) (g.getD k 0) = 1 / (n : ℚ) := by
+    have hk' : (g[k]?.getD 0) < n := by simpa [List.getD_eq_getElem?_getD] using hk
+    simp [freqOf, List.getD_eq_getElem?_getD, hk']
+  by_cases hF : F = 0
+  · simp only [hF, if_true, hf]; rfl
+  · simp only [hF, if_false, hf]
+    have hs : ((List.replicate n (1 / (n : ℚ))).map (alphaOf F)).sum = alphaOf F (1 / (n : ℚ)) * n := by
+      rw [List.map_replicate, List.sum_replicate, nsmul_eq_mul]; ring
+    rw [hs]; rfl
+
+theorem gibbs_flat_eq_explicit (P : CallParams) (hf : P.freqs = none) (a : List ℕ) (k : ℕ)
+    (hk : k < a.length) :
+    gibbsProbs P a k
+      = gibbsProbs { P with freqs := some (List.replicate P.n (1 / (P.n : ℚ))) } a k := by
+  unfold gibbsProbs gibbsWeights
+  congr 1
+  apply List.map_congr_left
+  intro x hx
+  have hx' : x < P.n := List.mem_range.mp hx
+  simp only [CallParams.n, hf]
+  congr 1
+  apply allelePrior_none_eq_flat
+  simp [List.getD_eq_getElem?_getD, hk]
+  exact hx'
+
 /-- consequently the Gibbs move is reversible w.r.t. `πo`: moving slot `k` from `x` to `y` and back
     carry the same probability flow -/
 theorem gibbs_reversible (P : CallParams) (alphas : List ℚ) (pre post : List ℕ) (x y : ℕ)
